@@ -23,6 +23,7 @@ FTok(j, c, i) == 500000 + 10000 * j + 100 * (c % 100) + i
 MTok(k) == 100000 + 100 * k                               \* output of the (stub) meta-regressor; k = 1
 YTok(t) == 1000 + t
 Skip(k) == k >= 7
+HasUpdate(k) == k \notin {4, 5}           \* transformers 4, 5 offer no update method (like log / Box-Cox)
 Ev(ev, who, rep, lo, hi, upd, x, y) ==
     [ev |-> ev, who |-> who, rep |-> rep, lo |-> lo, hi |-> hi, upd |-> upd, x |-> x, y |-> y]
 None == << >>
@@ -104,8 +105,10 @@ UpdEv(tr, rep, lo, hi, upd) ==
       [] tr.kind = "stack" -> CatAll([j \in DOMAIN tr.kids |-> UpdEv(tr.kids[j], rep, lo, hi, upd)])
       [] tr.kind = "pipe" ->
             CatAll([k \in DOMAIN tr.ts |->
-                      << Ev("tupdate", tr.ts[k], rep \o Prefix(tr.ts, k - 1), lo, hi, upd, None, None),
-                         Ev("ttransform", tr.ts[k], rep \o Prefix(tr.ts, k - 1), lo, hi, FALSE, None, None) >>])
+                      (IF HasUpdate(tr.ts[k])
+                       THEN << Ev("tupdate", tr.ts[k], rep \o Prefix(tr.ts, k - 1), lo, hi, upd, None, None) >>
+                       ELSE << >>)
+                      \o << Ev("ttransform", tr.ts[k], rep \o Prefix(tr.ts, k - 1), lo, hi, FALSE, None, None) >>])
             \o UpdEv(tr.kids[1], rep \o tr.ts, lo, hi, upd)
 
 (* A scenario: fit on 0..n-1 with horizon fh, then batches, then predict.    *)
@@ -113,9 +116,15 @@ RECURSIVE UpdAll(_, _, _)
 UpdAll(tr, ups, k) == IF k > Len(ups) THEN << >>
                       ELSE UpdEv(tr, None, ups[k].lo, ups[k].hi, ups[k].upd) \o UpdAll(tr, ups, k + 1)
 Cutoff(c) == IF Len(c.ups) = 0 THEN c.n - 1 ELSE LastS(c.ups).hi
+\* c.resel > 0 (multiplexer only): after the first fit the selection is changed with set_params and the
+\* composite is fitted again; from then on it must behave exactly like the newly selected member
+EffTree(c) == IF c.resel > 0 THEN [c.tree EXCEPT !.sel = c.resel] ELSE c.tree
 ExpectedCompose(c) ==
-    [events |-> FitEv(c.tree, None, 0, c.n - 1, c.fh) \o UpdAll(c.tree, c.ups, 1) \o PredEv(c.tree, Cutoff(c), c.fh),
-     ret |-> [i \in DOMAIN c.fh |-> LET v == Val(c.tree, Cutoff(c), i, 1) IN <<v[1], v[2]>>],
+    LET t2 == EffTree(c) IN
+    [events |-> FitEv(c.tree, None, 0, c.n - 1, c.fh)
+                \o (IF c.resel > 0 THEN FitEv(t2, None, 0, c.n - 1, c.fh) ELSE << >>)
+                \o UpdAll(t2, c.ups, 1) \o PredEv(t2, Cutoff(c), c.fh),
+     ret |-> [i \in DOMAIN c.fh |-> LET v == Val(t2, Cutoff(c), i, 1) IN <<v[1], v[2]>>],
      index |-> [i \in DOMAIN c.fh |-> Cutoff(c) + c.fh[i]],
      protos_unfitted |-> TRUE, independent |-> TRUE]
 
@@ -135,6 +144,7 @@ MuxOnlySelected(c, o) ==
     c.tree.kind = "mux" =>
         \A p \in DOMAIN o.events : o.events[p].ev \in {"fit", "update", "predict"}
                                     => o.events[p].who \in LeafIds(c.tree.kids[c.tree.sel])
+                                                          \cup LeafIds(EffTree(c).kids[EffTree(c).sel])
 StackHeldOut(c, o) ==
     c.tree.kind = "stack" =>
         \A p \in DOMAIN o.events : o.events[p].ev = "mfit" =>
